@@ -5,7 +5,8 @@ import glob, json, os, subprocess, sys
 V = os.path.dirname(os.path.dirname(os.path.abspath(__file__)))
 props = {json.loads(l)["id"]: json.loads(l) for l in open(os.path.join(V, "properties.jsonl"))}
 prefix = sys.argv[1]
-for pid in sys.argv[2:]:
+fresh = "--fresh" in sys.argv   # no list of earlier changes: an unconstrained sample
+for pid in [a for a in sys.argv[2:] if a != "--fresh"]:
     p = props[pid]
     d = "/root/scratch/%s-%s" % (prefix, pid.lower())
     os.makedirs(d, exist_ok=True)
@@ -17,7 +18,7 @@ for pid in sys.argv[2:]:
     for m in sorted(glob.glob(os.path.join(V, "seeded", pid + "-*", "meta.json"))):
         j = json.load(open(m))
         tried.append("- %s (files: %s)" % ((j.get("breaks") or "")[:420].replace("\n", " "), ", ".join(j.get("files") or [])))
-    if tried:
+    if tried and not fresh:
         t += "\nALREADY TRIED by other engineers - do NOT repeat these or close variants of them; pick DIFFERENT mechanisms, code sites and triggering conditions:\n" + "\n".join(tried) + "\n"
     open(d + "/PROPERTY.txt", "w").write(t)
     print(d, len(tried))
